@@ -125,6 +125,14 @@ def gen_iface(rng, idx):
                     ty = {"header": "zbus::message::Header<'_>", "connection": "&zbus::Connection", "object_server": "&zbus::ObjectServer"}[kind]
                     params.append(f"#[zbus({kind})] _{kind}: {ty}")
             params.append(f"a{j}: {t}")
+        # ... and behind the last argument; for a method without arguments this gives handlers whose ONLY parameters are
+        # the ones the library supplies (their message body must still be empty)
+        if rng.random() < (0.35 if nin == 0 else 0.1):
+            for kind in rng.sample(["header", "connection", "object_server"], rng.choice([1, 1, 2])):
+                if kind not in extra_kinds:
+                    extra_kinds.append(kind)
+                    ty = {"header": "zbus::message::Header<'_>", "connection": "&zbus::Connection", "object_server": "&zbus::ObjectServer"}[kind]
+                    params.append(f"#[zbus({kind})] _{kind}: {ty}")
         if outs:
             ret_t = outs[0][1] if len(outs) == 1 else "(" + ", ".join(t for _, t in outs) + ")"
         else:
